@@ -44,8 +44,8 @@ PROPS["C02"] = {
         {"pkg": "app", "name": "VerifC02_Table", "quick": {}, "thorough": {}, "reach": ["end", "restart.taken", "restart.refused"],
          "bounds": {"policy": "arbitrary string len<=16", "max_restarts": "[0,2^31]", "restarts": "[0,2^31]", "exit_code": "full int64",
                     "backoff_seconds": "[-2^31,2^31]"}},
-        {"pkg": "app", "name": "VerifC02_Loop", "quick": {"d": 1}, "thorough": {"d": 2}, "replay_repeat": 3, "reach": ["end", "relaunch"],
-         "bounds": {"attempts": "<=4 scripted exits (codes 0/3 per attempt), then runs until stopped", "policy": "no/always/on_failure/exit_on_failure",
+        {"pkg": "app", "name": "VerifC02_Loop", "quick": {"d": 1}, "thorough": {"d": 2}, "replay_repeat": 3, "native_timeout": 45, "reach": ["end", "relaunch"],
+         "bounds": {"attempts": "<=4 scripted exits (codes 0/3 per attempt, each attempt running 0 or 3 virtual seconds), then runs until stopped", "policy": "no/always/on_failure/exit_on_failure",
                     "max_restarts": "{0,1,2}", "backoff_seconds": "{0,2}", "stop request": "none or one, at any labelled instant"}},
         {"pkg": "app", "name": "VerifC02_Shutdown", "quick": {"d": 1}, "thorough": {"d": 2}, "replay_repeat": 6,
          "bounds": {"N": 2, "scenario": "restart-always worker whose command exits by itself at any point of a project shutdown (ordered or unordered) that is kept busy by a slow process with a 2s shutdown timeout"}},
